@@ -54,6 +54,50 @@ def h_collation(value: str, text: str, match: int) -> bool:
     return run(body_collation, value, text, match)
 
 
+# ------------------------------------------------------------------ collation kernel over a menu of case pairs
+# cased non-ASCII letters in both cases, letters whose Unicode upper / lower case mapping expands or lands in ASCII
+# (sharp s, dotless i, dotted capital I, ligature fi, long s, Kelvin sign), next to their ASCII look-alikes
+CASE_MENU = ["", "a", "A", "\u00e9", "\u00c9", "e", "\u00df", "SS", "ss", "\u0131", "I", "i", "\u0130", "\ufb01", "FI", "fi",
+             "\u017f", "s", "S", "\u212a", "K", "k", "\u044f", "\u042f", "stra\u00dfe", "STRASSE", "strasse", "caf\u00e9", "CAF\u00c9",
+             "Caf\u00e9", "\u01c6", "\u01c4"]
+
+
+def body_collation_menu(vi):
+    """i;ascii-casemap folds a-z and nothing else (RFC 4790 9.2.1); i;octet nothing at all: every (value, text) pair
+    of the menu x 4 match types x 3 collations against the reference, and through apply_text_match with defaults."""
+    from xv.core import pick, untraced
+    vi = pick(vi, len(CASE_MENU))
+    with untraced():
+        value = CASE_MENU[vi]
+        for text in CASE_MENU:
+            for m in MATCHES:
+                for coll in COLLS:
+                    want = O.collate(coll, value, text, m)
+                    if bool(xcoll.collations[coll](value, text, m)) != want:
+                        return (False, "%s:%s" % (coll, m))
+                    for negate in (False, True):
+                        el = ET.Element("{%s}text-match" % NS)
+                        el.set("collation", coll)
+                        el.set("match-type", m)
+                        el.set("negate-condition", "yes" if negate else "no")
+                        el.text = text or None
+                        if bool(xcard.apply_text_match(el, value)) != (want != negate):
+                            return (False, "text-match:%s:%s" % (coll, m))
+            el = ET.Element("{%s}text-match" % NS)
+            el.text = text or None
+            if bool(xcard.apply_text_match(el, value)) != O.collate("i;ascii-casemap", value, text, "contains"):
+                return (False, "text-match:defaults")
+        return (True, "ascii" if value.isascii() else "non-ascii")
+
+
+def h_collation_menu(vi: int) -> bool:
+    """
+    pre: 0 <= vi < len(CASE_MENU)
+    post: _
+    """
+    return run(body_collation_menu, vi)
+
+
 # ------------------------------------------------------------------ text-match element
 def _tm_el(text, match, coll, negate, defaults):
     el = ET.Element("{%s}text-match" % NS)
@@ -532,6 +576,13 @@ HARNESSES = [
                      "xandikos.carddav.addressbook_from_resource", "xandikos.carddav.AddressDataProperty.get_value_ext",
                      "xandikos.webdav.ReportMethod.handle", "xandikos.webdav.traverse_resource",
                      "xandikos.web.StoreBasedCollection.members", "xandikos.web.ObjectResource.get_file"]),
+    Harness("collation_menu", h_collation_menu, body_collation_menu, classes=["ascii", "non-ascii"],
+            budget={"quick": 60, "thorough": 120},
+            describe="collations and apply_text_match on every (value, text) pair of a menu of 32 strings with cased non-ASCII "
+                     "letters and letters whose Unicode case mapping expands or lands in ASCII (sharp s, dotless i, ligature "
+                     "fi, long s, Kelvin sign) x 4 match types x 3 collations x negation, and with the attribute defaults: "
+                     "i;ascii-casemap folds a-z only (RFC 4790 9.2.1); exhaustive over the menu",
+            encodes=["xandikos.collation._match", "xandikos.collation.collations", "xandikos.carddav.apply_text_match"]),
     Harness("collation", h_collation, body_collation,
             classes=[("contains:hit", 0), ("equals:hit", 1), ("starts-with:hit", 2), ("ends-with:miss", 0),
                      ("ends-with:hit", 1)],
